@@ -86,8 +86,20 @@ pub struct Parallel;
 pub const POOLS: [usize; 6] = [1, 2, 3, 4, 8, 16];
 
 #[cfg(feature = "par")]
-fn encode_in_pool(c: &EncCase, threads: usize, busy: bool) -> Result<Result<Vec<u8>, String>, String> {
+fn encode_in_pool(c: &EncCase, threads: usize, busy: bool, decoy: bool) -> Result<Result<Vec<u8>, String>, String> {
     let pool = rayon::ThreadPoolBuilder::new().num_threads(threads).build().map_err(|e| e.to_string())?;
+    if decoy {
+        // another encoder runs first on the same worker threads: same input and block length,
+        // different analysis window and LPC order - nothing of it may carry over
+        let mut d = c.clone();
+        d.opts.window = if d.opts.window == opts::Win::Hann { opts::Win::Tukey(0.5f32.to_bits()) } else { opts::Win::Hann };
+        d.opts.max_lpc = match d.opts.max_lpc {
+            Some(n) if n > 1 => Some(n - 1),
+            other => other,
+        };
+        let pcm = d.recipe.expand();
+        let _ = pool.install(|| guarded(|| codec::encode_vec(&pcm, &d.opts, d.front, &d.chunks)));
+    }
     if busy {
         // competing tasks perturb work stealing
         for k in 0..threads * 2 {
@@ -110,7 +122,7 @@ fn encode_in_pool(c: &EncCase, threads: usize, busy: bool) -> Result<Result<Vec<
 }
 
 #[cfg(not(feature = "par"))]
-fn encode_in_pool(_c: &EncCase, _threads: usize, _busy: bool) -> Result<Result<Vec<u8>, String>, String> {
+fn encode_in_pool(_c: &EncCase, _threads: usize, _busy: bool, _decoy: bool) -> Result<Result<Vec<u8>, String>, String> {
     Err("this build of the harness does not have the crate's rayon feature enabled".into())
 }
 
@@ -137,7 +149,8 @@ impl Engine for Parallel {
             for rep in 0..3 {
                 out.evals += 1;
                 let busy = rep == 2 || (rep == 1 && pi % 2 == 0);
-                match encode_in_pool(c, *threads, busy) {
+                let decoy = rep == 1;
+                match encode_in_pool(c, *threads, busy, decoy) {
                     Err(e) => {
                         out.infra.push(e);
                         return out;
@@ -157,7 +170,7 @@ impl Engine for Parallel {
                             out.fail(
                                 format!("parallel-differs:{kind}"),
                                 format!(
-                                    "{threads} worker threads (repeat {rep}, busy={busy}): {} vs serial {}",
+                                    "{threads} worker threads (repeat {rep}, busy={busy}, after-another-encoder={decoy}): {} vs serial {}",
                                     strip_digits(&got.chars().take(60).collect::<String>()),
                                     strip_digits(&serial.chars().take(60).collect::<String>())
                                 ),
@@ -207,9 +220,40 @@ pub fn par_case_strategy() -> BoxedStrategy<EncCase> {
         .boxed()
 }
 
+/// Blocks above 4096 samples with clean, highly predictable content and LPC on: the numerically
+/// delicate end of the analysis (any change in floating-point summation order shows in the bytes).
+pub fn par_large_strategy() -> BoxedStrategy<EncCase> {
+    (
+        proptest::sample::select(&[4608u16, 8192, 16384, 4097, 5000][..]),
+        proptest::sample::select(&[16u8, 24, 12][..]),
+        1u8..=2,
+        prop_oneof![Just(Some(8u8)), Just(Some(12u8)), Just(Some(32u8))],
+        opts::window_strategy(),
+        any::<u64>(),
+        proptest::collection::vec(
+            prop_oneof![
+                (1u8..=3, 0u8..2).prop_map(|(n, noise)| Kind::Sines { n, amp: 30, noise }),
+                (1u8..=4, 0u8..2).prop_map(|(partials, noise)| Kind::Tonal { partials, amp: 30, noise }),
+                (1u8..=4).prop_map(|degree| Kind::Poly { degree, noise: 0 }),
+                (2u16..40).prop_map(|run| Kind::Square { run }),
+            ],
+            2,
+        ),
+        super::c01::front_strategy(),
+    )
+        .prop_map(|(bs, bps, nch, max_lpc, window, seed, kinds, front)| {
+            let mut o = opts::EncOpts::small(bs);
+            o.max_lpc = max_lpc;
+            o.window = window;
+            let chans = kinds.into_iter().take(nch as usize).map(|kind| ChanRecipe { kind, wasted: 0, relation: 0 }).collect();
+            EncCase { recipe: pcm::Recipe { bps, rate: 44100, frames: bs as u32, seed, chans, seg: 0, ms_mix: 0 }, opts: o, front, chunks: vec![] }
+        })
+        .boxed()
+}
+
 pub const RULE: &str = "cases from the C01 space biased towards 2-8 channels and towards ties (identical, mirrored, silent channels); the \
 harness built with the crate's rayon feature encodes each case inside dedicated thread pools of 1, 2, 3, 4, 8 and 16 workers, three \
-times each, with and without competing busy tasks spawned into the same pool; the bytes (or the error) must equal what the build \
+times each, with and without competing busy tasks spawned into the same pool and with or without another encoder (other analysis window, other LPC order, same block length) having run on the same worker threads just before; music-like cases with blocks to 4608 and clean-signal cases with blocks of 4097-16384 samples are mixed in; the bytes (or the error) must equal what the build \
 without the feature produces, obtained from a child process of the serial harness binary. Non-trivial = >= 2 channels and >= 2 frames \
 (so that join, vec_map and cache reuse all run). Distinct = digest of the case. Schedules are sampled, not enumerated.";
 
@@ -231,9 +275,10 @@ pub fn run(ctx: &Ctx) {
     };
     ctx.search(&Parallel, n, || {
         prop_oneof![
-            5 => par_case_strategy(),
+            20 => par_case_strategy(),
+            3 => par_large_strategy(),
             // music-like material with larger blocks: the LPC/FIXED and channel-pair tasks really compete
-            1 => super::c01::tonal_case_strategy().prop_map(|mut c| {
+            4 => super::c01::tonal_case_strategy().prop_map(|mut c| {
                 c.chunks = vec![];
                 c
             }),
